@@ -31,7 +31,9 @@ def _bcparams(g, t, rho, u2, p, case=None):
     import zlib
     low = case is not None and zlib.crc32(repr(sorted((k, repr(v)) for k, v in case.items())).encode()) % 4 == 0
     if t in ("insub", "insup"):
-        d["ptot"] = 1.25 * float(np.max(pt)) if not low else float(np.exp(np.mean(np.log(p))))
+        # (0.97 x the geometric mean: with equal interior pressures the faces are clearly blocked, never within round-off of ptot = p, where the inlet Mach number
+        # sqrt(m2) is ill-conditioned - see C03)
+        d["ptot"] = 1.25 * float(np.max(pt)) if not low else 0.97 * float(np.exp(np.mean(np.log(p))))
         d["rttot"] = 1.25 * float(np.max(rt))
     if t == "insup":
         d["p"] = 0.5 * float(np.max(p))
